@@ -635,12 +635,13 @@ class _Builder:
             g.edge(n, self.exc_target(), "exc")
             return None
         if isinstance(st, ast.Assert):
-            t, f = self.cond(st.test, cur, st)
-            if f is not None:
-                n = g._new("stmt", st)
-                g.edge(f, n)
-                g.edge(n, self.exc_target(), "exc")
-            return t
+            # an assert is compiled away under `python -O` / PYTHONOPTIMIZE: it may raise, but it guarantees
+            # nothing to what follows - no branch node, hence no guard fact (a refusal written as an assert is
+            # not a refusal)
+            n = g._new("stmt", st)
+            g.edge(cur, n)
+            g.edge(n, self.exc_target(), "exc")
+            return n
         if isinstance(st, ast.Break):
             n = g._new("stmt", st)
             g.edge(cur, n)
